@@ -163,10 +163,18 @@ Definition spec_ordinary (c : case) : bool :=
   | _, _ => false
   end.
 
+(* every reply that comes back over UDP, whichever handler wrote it, is no longer
+   than the size the client advertised (512 without EDNS or below 512) *)
+Definition spec_udp_fits (c : case) : bool :=
+  match proto (c_env c), c_reply c with
+  | Udp, Some o => o_wire o <=? udp_size (c_req c)
+  | _, _ => true
+  end.
+
 Definition spec_ok (c : case) : bool :=
   let cfg := c_cfg c in
   let r := c_req c in
-  c_alive c &&
+  c_alive c && spec_udp_fits c &&
   if negb (spec_accepts cfg r) then
     match c_reply c with
     | None => hqr (mh r)
